@@ -79,12 +79,12 @@ ODD = ["a.b", ".", "", "a.", "a", BS, "a" + BS, BS + ".", BS + BS]
 
 @H.ob(model="none", quick=300, thorough=600,
       targets=("clematis/engine/util/snapshot_delta.py:compute_delta", "clematis/engine/util/snapshot_delta.py:apply_delta"),
-      bounds="one top-level key chosen by symbolic index from 9 odd keys (dots, empty, trailing dot, the escape character itself: backslash, trailing backslash, backslash-dot, double backslash) plus the plain key 'n' holding a nested dict whose inner key is again chosen from that alphabet; top-level values from the value alphabet or absent, nested values from {1, {x:1}, {x:2}, {x:1,y:{z:1}}, absent} on both sides (so changes BELOW an odd key occur)",
+      bounds="one top-level key chosen by symbolic index from 9 odd keys (dots, empty, trailing dot, the escape character itself: backslash, trailing backslash, backslash-dot, double backslash) plus the plain key 'n' holding a nested dict whose inner key is again chosen from that alphabet; top-level values from the value alphabet or absent, nested values from {1, {x:1}, absent} on both sides",
       split={"ki": list(range(9)), "kn": list(range(9))},
       note="C07.a round-trip law for keys with dots / empty strings / backslashes (top level and nested, with changes below them)")
 def law_odd_keys(ki: int, kn: int, bv: int, cv: int, bn: int, cn: int) -> bool:
     """
-    pre: 0 <= ki <= 8 and 0 <= kn <= 8 and 0 <= bv <= NV and 0 <= cv <= NV and 0 <= bn <= 4 and 0 <= cn <= 4
+    pre: 0 <= ki <= 8 and 0 <= kn <= 8 and 0 <= bv <= NV and 0 <= cv <= NV and 0 <= bn <= 2 and 0 <= cn <= 2
     post: _
     """
     vals = _vals()
@@ -93,11 +93,30 @@ def law_odd_keys(ki: int, kn: int, bv: int, cv: int, bn: int, cn: int) -> bool:
         base[ODD[ki]] = copy.deepcopy(vals[bv])
     if cv < NV:
         cur[ODD[ki]] = copy.deepcopy(vals[cv])
-    nested = [1, {"x": 1}, {"x": 2}, {"x": 1, "y": {"z": 1}}]
-    if bn < 4:
+    nested = [1, {"x": 1}]
+    if bn < 2:
         base.setdefault("n", {})[ODD[kn]] = copy.deepcopy(nested[bn])
-    if cn < 4:
+    if cn < 2:
         cur.setdefault("n", {})[ODD[kn]] = copy.deepcopy(nested[cn])
+    return H.verdict(_law(base, cur))
+
+
+BELOW = [{"x": 1}, {"x": 2}, {"x": 1, "y": {"z": 1}}, {"x": 1, "y": {"z": 2}}]
+
+
+@H.ob(model="none", quick=300, thorough=600,
+      targets=("clematis/engine/util/snapshot_delta.py:compute_delta", "clematis/engine/util/snapshot_delta.py:apply_delta", "clematis/engine/util/snapshot_delta.py:_split_path"),
+      bounds="an odd key (9-key alphabet of law_odd_keys) holding a dict at top level and again inside the plain key 'n'; the dicts on both sides by symbolic index over {x:1}, {x:2}, {x:1,y:{z:1}}, {x:1,y:{z:2}}: the change lies one or two levels BELOW the odd key, so its escaped form is a middle component of the delta path",
+      split={"ki": list(range(9))},
+      note="C07.a round-trip law for changes below keys with dots / empty strings / backslashes")
+def law_below_odd(ki: int, b1: int, c1: int, b2: int, c2: int) -> bool:
+    """
+    pre: 0 <= ki <= 8 and 0 <= b1 <= 3 and 0 <= c1 <= 3 and 0 <= b2 <= 3 and 0 <= c2 <= 3
+    post: _
+    """
+    k = ODD[ki]
+    base = {k: copy.deepcopy(BELOW[b1]), "n": {k: copy.deepcopy(BELOW[b2])}}
+    cur = {k: copy.deepcopy(BELOW[c1]), "n": {k: copy.deepcopy(BELOW[c2])}}
     return H.verdict(_law(base, cur))
 
 
